@@ -18,7 +18,10 @@ import threading
 
 from vlib import core
 
-BOUNDARY = [0, 1, 7, 8, 9, 15, 16, 17, 23, 24, 25, 31, 32, 33, 40]
+# lengths of the quick tier: every multiple of the word size with both neighbours, the powers of two and their
+# neighbours, a length inside every range between them (fast paths are usually selected by such ranges)
+BOUNDARY = [0, 1, 2, 3, 4, 5, 7, 8, 9, 12, 15, 16, 17, 20, 23, 24, 25, 28, 31, 32, 33, 36, 39, 40]
+FULL_ALIGN_N = [0, 1, 7, 8, 9, 15, 16, 17, 23, 24, 25, 31, 32, 33, 40]   # thorough: memcmp/bcmp with all 256 alignment pairs
 ALL_N = list(range(41))
 THRESHOLD = 16          # WORD_COPY_THRESHOLD of mem.rs on x86_64 (checked against the probe's meta line: word = 8)
 _LOCK = threading.Lock()
@@ -337,11 +340,11 @@ def run(tier):
                       expected_counts(ns, {"cpy", "mov", "set", "cmp", "bcmp"}, False)))
         plans.append(("large", "large %d 60 65536" % chk.seed, None))
     else:
-        rest = [n for n in ALL_N if n not in BOUNDARY]
+        rest = [n for n in ALL_N if n not in FULL_ALIGN_N]
         plans.append(("copyset", "small cpy,mov,set %s sub" % ",".join(map(str, ALL_N)),
                       expected_counts(ALL_N, {"cpy", "mov", "set"}, False)))
-        plans.append(("cmpfull", "small cmp,bcmp %s full" % ",".join(map(str, BOUNDARY)),
-                      expected_counts(BOUNDARY, {"cmp", "bcmp"}, True)))
+        plans.append(("cmpfull", "small cmp,bcmp %s full" % ",".join(map(str, FULL_ALIGN_N)),
+                      expected_counts(FULL_ALIGN_N, {"cmp", "bcmp"}, True)))
         plans.append(("cmpsub", "small cmp,bcmp %s sub" % ",".join(map(str, rest)),
                       expected_counts(rest, {"cmp", "bcmp"}, False)))
         plans.append(("large", "large %d 400 1048576" % chk.seed, None))
